@@ -31,6 +31,12 @@ EnvsOf(ds, i, dom, V) ==   \* ds: sequence of patterns, each ranges independentl
   IF i > Len(ds) THEN {V} ELSE UNION {EnvsOf(ds, i+1, dom, BindV(ds[i], x, V)) : x \in dom}
 DeclEnvs(d, dom, V) == IF d.id = "ENUMDECL" THEN EnvsOf(d.ch, 1, dom, V) ELSE EnvsOf(<<d>>, 1, dom, V)
 
+MaxI32 == 2147483647
+MinI32 == -2147483647 - 1
+AbsI(a) == IF a < 0 THEN 0 - a ELSE a
+AddOver(a, b) == (b > 0 /\ a > MaxI32 - b) \/ (b < 0 /\ a < MinI32 - b)
+\* (products equal to -2^31 exactly are treated as overflowing: not generated)
+MulOver(a, b) == a # 0 /\ b # 0 /\ (a = MinI32 \/ b = MinI32 \/ AbsI(a) > MaxI32 \div AbsI(b))
 \* TLC keeps [x \in S |-> e] as a lambda and re-evaluates e at every application; merging with the empty function makes it a table
 Force(f) == f @@ <<>>
 RECURSIVE Ev(_, _, _, _, _)
@@ -118,9 +124,11 @@ Ev(e, I, FD, V, K) ==
     [] e.id = "LESSER" -> Ok(v(1) < v(2))
     [] e.id = "GREATER_OR_EQ" -> Ok(v(1) >= v(2))
     [] e.id = "LESSER_OR_EQ" -> Ok(v(1) <= v(2))
-    [] e.id = "PLUS" -> Ok(v(1) + v(2))
-    [] e.id = "MINUS" -> Ok(v(1) - v(2))
-    [] e.id = "MULTIPLY" -> Ok(v(1) * v(2))
+    \* integers are exact inside the 32-bit range of stored values; a result outside it is the documented overflow error
+    \* (the tests are written so that TLC itself never leaves the range)
+    [] e.id = "PLUS" -> IF AddOver(v(1), v(2)) THEN Err("overflow") ELSE Ok(v(1) + v(2))
+    [] e.id = "MINUS" -> IF v(2) = MinI32 \/ AddOver(v(1), 0 - v(2)) THEN Err("overflow") ELSE Ok(v(1) - v(2))
+    [] e.id = "MULTIPLY" -> IF MulOver(v(1), v(2)) THEN Err("overflow") ELSE Ok(v(1) * v(2))
     [] e.id = "AND" -> Ok(v(1) /\ v(2))
     [] e.id = "OR" -> Ok(v(1) \/ v(2))
     [] e.id = "IMPLICATION" -> Ok(v(1) => v(2))
